@@ -94,6 +94,10 @@ class Program:
         self.classes_by_name: Dict[str, List[ClassInfo]] = {}
         self.functions: Dict[str, FuncInfo] = {}  # module-level: qual -> info
         self._imports: Dict[str, Dict[str, Tuple[str, Optional[str]]]] = {}
+        self._mro_cache: Dict[str, List[ClassInfo]] = {}
+        self._mc_cache: Dict[str, Dict[str, ast.expr]] = {}
+        self._sub_cache: Dict[str, List[ClassInfo]] = {}
+        self._res_cache: Dict[Tuple[str, str], Any] = {}
         for pkg in packages:
             for rp in repo.iter_py(pkg):
                 self._add(repo.module(rp))
@@ -169,7 +173,10 @@ class Program:
         return f
 
     def module_consts(self, m: ModuleInfo) -> Dict[str, ast.expr]:
+        if m.relpath in self._mc_cache:
+            return self._mc_cache[m.relpath]
         d: Dict[str, ast.expr] = {}
+        self._mc_cache[m.relpath] = d
         for st in m.tree.body:
             if isinstance(st, ast.Assign):
                 for t in st.targets:
@@ -183,6 +190,14 @@ class Program:
         """Resolve a bare name in module m to ClassInfo / FuncInfo / ('const', module, expr) / ModuleInfo / None."""
         if _depth > 6:
             return None
+        key = (m.relpath, name)
+        if key in self._res_cache:
+            return self._res_cache[key]
+        r = self._resolve(m, name, _depth)
+        self._res_cache[key] = r
+        return r
+
+    def _resolve(self, m: ModuleInfo, name: str, _depth: int = 0) -> Any:
         q = f"{m.relpath}::{name}"
         if q in self.classes:
             return self.classes[q]
@@ -245,8 +260,12 @@ class Program:
                 seqs = [s for s in seqs if s]
             return res
 
+        if c.qual in self._mro_cache:
+            return self._mro_cache[c.qual]
         bs = self.bases(c)
-        return [c] + merge([self.mro(b) for b in bs] + [bs])
+        r = [c] + merge([self.mro(b) for b in bs] + [bs])
+        self._mro_cache[c.qual] = r
+        return r
 
     def find_method(self, c: ClassInfo, name: str, kind: str = "plain", skip_self: bool = False) -> Optional[FuncInfo]:
         chain = self.mro(c)
@@ -265,7 +284,9 @@ class Program:
         return None
 
     def subclasses(self, c: ClassInfo) -> List[ClassInfo]:
-        return [k for k in self.classes.values() if k is not c and c in self.mro(k)]
+        if c.qual not in self._sub_cache:
+            self._sub_cache[c.qual] = [k for k in self.classes.values() if k is not c and c in self.mro(k)]
+        return self._sub_cache[c.qual]
 
     # --------------------------------------------------------------- folding
     def fold(self, e: Optional[ast.expr], m: ModuleInfo, c: Optional[ClassInfo] = None,
